@@ -208,6 +208,7 @@ def correspond(ctx, corr):
     route_daliserver_persistent(ctx, corr, ids, picks, allcmds)
     route_serial_slow_confirm(ctx, corr, ids, picks)
     route_atx_sequence(ctx, corr, ids, picks, allcmds)
+    route_serial_cancel_queued(ctx, corr, ids, picks)
     route_atx_threads(ctx, corr, ids, picks, found)
     corr.exhaustive["hasseb: every status code x (every byte for the protocol's codes 1-3, boundary bytes otherwise)"] = True
     corr.exhaustive["tridonic: every report type x (every status byte for types 0x72/0x77, boundary bytes otherwise)"] = True
@@ -1203,6 +1204,69 @@ def route_atx_sequence(ctx, corr, ids, picks, allcmds):
         n += 1
     corr.count("traces", n)
     corr.count("atx_sequence", n)
+
+
+def route_serial_cancel_queued(ctx, corr, ids, picks):
+    """LUBA / SCI: three callers on one driver; the second is cancelled while it is still queued behind the first.
+    The gateway answers every frame 5 ms after confirming it, according to the bus outcome scripted for THAT frame.
+    The first and the third caller must each come back with the outcome of their own command."""
+    traces = 0
+    pool = [picks[k] for k in KINDS]
+    queries = [c for c in pool if c.response is not None and not c.sendtwice] or pool
+
+    async def scenario(loop, kind, c1, c2, c3, bus1, bus3, when):
+        ss = await sim.SerialSim(kind).start()
+        d = ss.d
+        history = []
+        outcome_of = {bytes(c1.frame.pack): bus1, bytes(c3.frame.pack): bus3}
+
+        def on_write(b):
+            loop.call_later(0.017, ss.confirm, b)
+            bus = outcome_of.get(bytes(ss.frame_of_write(b)), "s")
+            w = ask(["enc %s 0 0 %s 0" % (kind, bus)])[0].split()[1]
+            if w != "T":
+                loop.call_later(0.022, ss.rx, [int(w)])
+        ss.tr.on_write = on_write
+        t1 = asyncio.ensure_future(d.send(c1))
+        await sim.settle(3)
+        t2 = asyncio.ensure_future(d.send(c2))
+        t3 = asyncio.ensure_future(d.send(c3))
+        await sim.settle(3)
+        if when:
+            await asyncio.sleep(when)
+        t2.cancel()
+        history.append("caller 1 sends %s (bus %s); callers 2 and 3 queue; caller 2 is cancelled %d ms later"
+                       % (c1.frame, bus1, round(when * 1000)))
+        res = []
+        for t in (t1, t3):
+            try:
+                res.append("ok " + canon_answer(await asyncio.wait_for(t, 5.0), ids))
+            except BaseException as e:  # noqa
+                res.append("err " + type(e).__name__)
+        try:
+            await t2
+        except BaseException:   # noqa
+            pass
+        history.append("caller 1 -> %s; caller 3 (%s, bus %s) -> %s" % (res[0], c3.frame, bus3, res[1]))
+        return res, history
+
+    rng = ctx.rng
+    for kind in ("luba", "sci"):
+        for _ in range(60 if ctx.thorough else 16):
+            c1, c3 = rng.choice(queries), rng.choice(queries)
+            if c1.frame.pack == c3.frame.pack:
+                continue
+            c2 = rng.choice(pool)
+            bus1 = rng.choice(["s", "s", "v%d" % rng.randrange(256)])
+            bus3 = "v%d" % rng.randrange(256)
+            when = rng.choice([0.0, 0.003, 0.012, 0.02])
+            res, history = sim.run(scenario, kind, c1, c2, c3, bus1, bus3, when)
+            for c, bus, r, who in ((c1, bus1, res[0], 1), (c3, bus3, res[1], 3)):
+                check_table(corr, kind, c, bus, r, ids,
+                            history={"routing": history, "caller": who, "command": str(c), "bus": bus})
+            traces += 1
+    corr.count("traces", traces)
+    corr.count("serial_cancel_queued", traces)
 
 
 DELIVERY = ["separate", "one-chunk", "back-to-back", "straddled"]
